@@ -14,7 +14,7 @@ func init() { register("C06", c06) }
 
 func isInvoke(cs engine.CallSite, ifacePkg, iface, method string) bool {
 	cc := cs.Common()
-	return cc.IsInvoke() && cc.Method.Name() == method && engine.IsNamed(cc.Value.Type(), ifacePkg, iface)
+	return cc.IsInvoke() && engine.MethodName(cc.Method) == method && engine.IsNamed(cc.Value.Type(), ifacePkg, iface)
 }
 
 // implementersOf returns the concrete named types of package pkgRel whose pointer or
@@ -74,7 +74,7 @@ func c06(c *Ctx) {
 	doneHelpers := map[*ssa.Function]bool{}
 	cut := map[ssa.Instruction]bool{}
 	isDone := func(cs engine.CallSite) bool {
-		return cs.Common().IsInvoke() && cs.Common().Method.Name() == "Done" && engine.IsNamed(cs.Common().Value.Type(), "imap", "Update")
+		return cs.Common().IsInvoke() && engine.MethodName(cs.Common().Method) == "Done" && engine.IsNamed(cs.Common().Value.Type(), "imap", "Update")
 	}
 	for _, cs := range engine.Calls(apply) {
 		if cs.Instr.Parent() != apply {
@@ -161,7 +161,7 @@ func c06(c *Ctx) {
 	// closures of apply must not call Done either
 	for _, cl := range engine.WithClosures(apply)[1:] {
 		for _, cs := range engine.Calls(cl) {
-			if cs.Common().IsInvoke() && cs.Common().Method.Name() == "Done" && engine.IsNamed(cs.Common().Value.Type(), "imap", "Update") {
+			if cs.Common().IsInvoke() && engine.MethodName(cs.Common().Method) == "Done" && engine.IsNamed(cs.Common().Value.Type(), "imap", "Update") {
 				R.Fail("R06.1", c.name(cl)+"|Done-in-closure", P.Pos(cs.Pos()), "update.Done called inside a closure of apply: cannot be counted")
 			}
 		}
@@ -186,7 +186,7 @@ func c06(c *Ctx) {
 		}
 		for _, cs := range engine.Calls(f) {
 			cc := cs.Common()
-			if cc.IsInvoke() && cc.Method.Name() == "Done" && (engine.IsNamed(cc.Value.Type(), "imap", "Update") || engine.IsNamed(cc.Value.Type(), "imap", "Waiter")) {
+			if cc.IsInvoke() && engine.MethodName(cc.Method) == "Done" && (engine.IsNamed(cc.Value.Type(), "imap", "Update") || engine.IsNamed(cc.Value.Type(), "imap", "Waiter")) {
 				others++
 				R.Fail("R06.1", c.name(f)+"|foreign-Done", P.Pos(cs.Pos()), "update.Done is called outside user.apply: an update could be acknowledged twice or before it was applied")
 			}
@@ -402,7 +402,7 @@ func isTxMethodCall(v ssa.Value, names ...string) bool {
 		return false
 	}
 	for _, n := range names {
-		if call.Call.Method.Name() == n {
+		if engine.MethodName(call.Call.Method) == n {
 			return true
 		}
 	}
@@ -718,7 +718,7 @@ func c06idem(c *Ctx, apply *ssa.Function, reach map[*ssa.Function]*ssa.Function)
 
 func isInvokeNamed(cs engine.CallSite, method string) bool {
 	cc := cs.Common()
-	return cc.IsInvoke() && cc.Method.Name() == method
+	return cc.IsInvoke() && engine.MethodName(cc.Method) == method
 }
 
 func c06recovery(c *Ctx, apply *ssa.Function) {
@@ -776,7 +776,7 @@ func c06recovery(c *Ctx, apply *ssa.Function) {
 		for _, g := range engine.WithClosures(f) {
 			for _, cs := range engine.Calls(g) {
 				cc := cs.Common()
-				if cc.IsInvoke() && engine.IsNamed(cc.Value.Type(), "db", "Transaction") && isWriteMethod(cc.Method.Name()) {
+				if cc.IsInvoke() && engine.IsNamed(cc.Value.Type(), "db", "Transaction") && isWriteMethod(engine.MethodName(cc.Method)) {
 					writes = append(writes, cs.Instr)
 				}
 				if sc := cc.StaticCallee(); sc != nil && (engine.ShortName(sc) == "AddMessagesToMailbox" || engine.ShortName(sc) == "applyMessagesAddedToMailbox") {
